@@ -155,7 +155,8 @@ tie_proved = syntactic_tie is not None and not rct and all(v.startswith("proved"
 if not rc and obligations:
     audit = "import JenVerif.Props.%s\n" % prop + "".join("#print axioms %s.%s\n" % (prop, n) for n in obligations)
     if tie_proved:
-        audit = "import JenVerif.Tie.All\n" + audit + "".join("#print axioms Tie.%s\n" % t for t in sorted(set(TIE_THEOREMS.values()) | {"register_src_keeps_invariant", "register_src_fuel_stable", "renderImports_src_of_inv", "File_Render_eq_of_inv", "File_Save_eq_of_inv"}))
+        audit = "import JenVerif.Tie.All\n" + audit + "".join("#print axioms Tie.%s\n" % t for t in sorted(set(TIE_THEOREMS.values()) | {"register_src_keeps_invariant", "register_src_fuel_stable", "renderImports_src_of_inv", "File_Render_eq_of_inv", "File_Save_eq_of_inv",
+                                                                                                                                     "srcRec_null", "srcRec_render", "srcRec_render_strong"}))
     ap = "%s/audit_%s.lean" % (BUILD, prop)
     open(ap, "w").write(audit)
     rca, aout = sh("lake env lean %s" % ap, cwd=LEAN, timeout=600)
@@ -165,7 +166,7 @@ if not rc and obligations:
     bad = {n: a for n, a in axioms.items() if set(a) - ALLOWED_AXIOMS}
     missing = [n for n in obligations if n not in axioms]
     if tie_proved and "register_src_eq_model" not in axioms: missing.append("Tie.register_src_eq_model")
-    tie_axioms = {k: v for k, v in axioms.items() if k in TIE_THEOREMS.values() or k.startswith("register_src_") or k.startswith("renderImports_src_") or k.endswith("_of_inv")}
+    tie_axioms = {k: v for k, v in axioms.items() if k in TIE_THEOREMS.values() or k.startswith("register_src_") or k.startswith("renderImports_src_") or k.endswith("_of_inv") or k.startswith("srcRec_")}
     for k in tie_axioms: axioms.pop(k)
     bad.update({n: a for n, a in tie_axioms.items() if set(a) - ALLOWED_AXIOMS})
     if bad or grep_hits or rca or missing:
